@@ -1,0 +1,34 @@
+//go:build verif
+
+package certmagic
+
+import (
+	"crypto/x509"
+	"time"
+
+	"github.com/mholt/acmez/v3/acme"
+)
+
+// Verification hooks (build tag "verif" only): thin exported wrappers around the
+// unexported renewal-decision functions. No existing code is changed.
+
+// VerifCertNeedsRenewal exposes Config.certNeedsRenewal.
+func VerifCertNeedsRenewal(cfg *Config, leaf *x509.Certificate, ari acme.RenewalInfo, emitLogs bool) bool {
+	return cfg.certNeedsRenewal(leaf, ari, emitLogs)
+}
+
+// VerifCertificateNeedsRenewal calls the exported Certificate.NeedsRenewal on a
+// Certificate whose unexported ari field is set.
+func VerifCertificateNeedsRenewal(cfg *Config, leaf *x509.Certificate, ari acme.RenewalInfo) bool {
+	cert := Certificate{ari: ari}
+	cert.Leaf = leaf
+	return cert.NeedsRenewal(cfg)
+}
+
+// VerifManagedCertNeedsRenewal exposes Config.managedCertNeedsRenewal.
+func VerifManagedCertNeedsRenewal(cfg *Config, certRes CertificateResource) (time.Duration, *x509.Certificate, bool) {
+	return cfg.managedCertNeedsRenewal(certRes, false)
+}
+
+// VerifExpiresAt exposes expiresAt.
+func VerifExpiresAt(leaf *x509.Certificate) time.Time { return expiresAt(leaf) }
